@@ -139,6 +139,22 @@ def run(ctx):
                 pool[ik] = (signer, sinfo)
         _, subj = pkts.make_signer(rng, sk, key_name)
         pub = subj['pub'] if rng.random() < 0.9 else gen.rand_bytes(rng, rng.choice([0, 1, 91, 300]))
+        if rng.random() < 0.25 and pub is subj['pub']:
+            # the same key in another legal encoding (compressed EC point, PKCS#1 RSAPublicKey, PEM text): the content is the octets given
+            try:
+                from Cryptodome.PublicKey import ECC as _ECC, RSA as _RSA
+                if sk.startswith('ecdsa'):
+                    pub = _ECC.import_key(subj['pub']).export_key(format='DER', compress=True)
+                    ctx.klass('public-key-encoding-ec-compressed')
+                elif sk == 'rsa':
+                    k_ = _RSA.import_key(subj['pub'])
+                    pub = rng.choice([k_.export_key(format='PEM'), k_.export_key(format='DER', pkcs=1)])
+                    ctx.klass('public-key-encoding-rsa-other')
+                else:
+                    pub = _ECC.import_key(subj['pub']).export_key(format='PEM').encode()
+                    ctx.klass('public-key-encoding-pem')
+            except Exception:   # noqa
+                pub = subj['pub']
         form, fl = pkts.name_form(rng, key_name)
         which = rng.choice(['derive', 'derive', 'derive', 'self', 'req'])
         if i >= n:
@@ -214,6 +230,7 @@ def run(ctx):
     time.tzset()
     ctx.need_event('cert-checked')
     ctx.need_class('local-time-zone-JST-9')
+    ctx.need_class('public-key-encoding-ec-compressed')
     ctx.need_event('signer-reused-with-new-locator')
     ctx.assumptions = ['self_sign/sign_req read the real clock (datetime.now is not patchable): their instants are checked within 5 s',
                        'non-UTC aware datetimes and years < 1000 are outside the generated domain']
